@@ -30,6 +30,7 @@ type c18Prog struct {
 	RKey    int     `json:"rkey"`    // other reader's link key (made different from wkey)
 	Appends []int   `json:"appends"` // pointer counts of a small log built with the writer key
 	Reopen  int     `json:"reopen"`  // loader used to reopen the log before appending again (index, mod 4)
+	KeyBuf  int     `json:"keyBuf,omitempty"` // how the writer's codec got its key: 0 as usual; 1 from a buffer the caller wipes afterwards; 2 from a buffer into which the caller then loads the other reader's key
 	Opts    int     `json:"opts"`    // CreateEntryOptions of a second write of the entry: bit 0 Pin, bit 1 PreSigned
 }
 
@@ -43,6 +44,7 @@ func genC18(t *rapid.T) c18Prog {
 		Appends: rapid.SliceOfN(rapid.SampledFrom([]int{0, 1, 2, 4, 8, 16}), 1, 8).Draw(t, "appends"),
 		Reopen:  rapid.IntRange(0, 3).Draw(t, "reopen"),
 		Opts:    rapid.IntRange(0, 3).Draw(t, "opts"),
+		KeyBuf:  rapid.SampledFrom([]int{0, 0, 1, 2}).Draw(t, "keyBuf"),
 	}
 }
 
@@ -95,6 +97,19 @@ func runC18(tb ev.TB, p c18Prog) ev.Result {
 		rk = (wk + 1) % 6
 	}
 	wio, otherio, noio := world.IO(world.CodecLinkKey, wk), world.IO(world.CodecLinkKey, rk), world.IO(world.CodecDefault, 0)
+	switch p.KeyBuf {
+	case 1:
+		buf := world.LinkKeyBytes(wk)
+		wio = world.IOFromBuffer(buf)
+		for i := range buf {
+			buf[i] = 0 // key hygiene: the caller does not keep secrets around
+		}
+	case 2:
+		buf := world.LinkKeyBytes(wk)
+		wio = world.IOFromBuffer(buf)
+		copy(buf, world.LinkKeyBytes(rk)) // the same buffer serves to load the next key
+		otherio = world.IOFromBuffer(buf)
+	}
 	provider := world.Identity(p.Entry.Writer).Provider
 	st := fakeipfs.NewStore()
 	e := create(tb, st, p.Entry, wio)
